@@ -19,7 +19,7 @@ def bump(t, e):
 
 def fam_args(tier, rng):
     out = []
-    shapes = ["var", "idx", "lit", "par", "expr", "fcall", "convert", "idxexpr"]
+    shapes = ["var", "idx", "lit", "par", "expr", "fcall", "convert", "idxexpr", "fcall0", "fcall0par", "err"]
     for t in T5:
         for shape in shapes:
             for style in ("bare",):
@@ -46,6 +46,16 @@ def fam_args(tier, rng):
                     arg = bump(t, a)
                 elif shape == "fcall":
                     arg = fcall("F", t, [a], 0)
+                elif shape in ("fcall0", "fcall0par"):
+                    # the name of a parameterless function as an argument: a call, its result passed by value
+                    subs.append(fun("Z", t, [], [b.print(lit("$", "z")), b.let(var("Z", t), v0(t))]))
+                    arg = fcall("Z", t, [], 0)
+                    if shape == "fcall0par":
+                        arg = par(arg)
+                elif shape == "err":
+                    if t != "I":
+                        continue
+                    arg = {"k": "err"}
                 else:
                     if t == "$":
                         continue
@@ -53,8 +63,10 @@ def fam_args(tier, rng):
                     main.append(b.let(var("O", ot), lit("I", 5)))
                     arg = par(var("O", ot))
                 c = b.call("P", [arg], style)
-                if shape == "fcall":
+                if shape in ("fcall", "fcall0"):
                     arg["sid"] = c["id"]
+                if shape == "fcall0par":
+                    arg["e"]["sid"] = c["id"]
                 main += [c, b.print(lit("$", "after"), a, idx("AR", t, [lit("I", 1)]), idx("AR", t, [lit("I", 0)]))]
                 out.append({"fam": "args:%s/%s/%s" % (t, shape, style), "prog": prog(main, subs)})
     # by-reference array element whose subscript calls a (pure) function: SUB and FUNCTION callee
